@@ -3,7 +3,8 @@
 
    A world W is one invocation:
 
-     ploidy, tagSupp, linked (BX clouds are honoured), ignoreRG, onlySample,
+     ploidy, tagSupp, linked (BX clouds are honoured), cutoff (--linked-read-distance-cutoff),
+     ignoreRG, onlySample,
      rgSample  : read group index -> sample index (0 = the read group's sample is
                  not a selected sample of the VCF),
      sites     : seq of [chrom, pos, len]   every variant record of the VCF
@@ -19,7 +20,13 @@
    (-1 = tag absent).
 
    "Its read" of the statement is the name group: all usable alignments with the
-   same name and sample (with linked reads: the same barcode).  Usable means what
+   same name and sample; with linked reads also the alignments of the same sample and
+   chromosome that carry the same barcode and start within `cutoff` bp ("reads with identical BX
+   tags belong to different read clouds if their distance is larger than the cutoff").  That
+   relation is a partition of the alignments only if the clouds of a barcode are well separated
+   (CloudsSeparated); only such inputs are judged - for a chain of reads each within the cutoff
+   of the next but not of the first, the command's grouping depends on the visiting order and the
+   statement does not fix it.  Usable means what
    whatshap's fixed read filter admits as allele evidence (mapped, primary line,
    MAPQ >= MinMapq; duplicates count). *)
 EXTENDS Util
@@ -59,8 +66,23 @@ Informative(W, s, j) ==
     /\ W.phase[s][j].ph
     /\ Het(W.phase[s][j].al)
 
-GroupKey(W, a) == IF W.linked /\ a.bx # 0 THEN <<1, a.bx>> ELSE <<0, a.name>>
-SameRead(W, a, b) == GroupKey(W, a) = GroupKey(W, b) /\ SmpOf(W, a) = SmpOf(W, b)
+SameCloud(W, a, b) ==
+    /\ W.linked /\ a.bx # 0 /\ a.bx = b.bx
+    /\ Placed(a) /\ a.chrom = b.chrom
+    /\ Abs(a.pos - b.pos) <= W.cutoff
+SameRead(W, a, b) == SmpOf(W, a) = SmpOf(W, b) /\ (a.name = b.name \/ SameCloud(W, a, b))
+
+(* premise for barcoded input: on a chromosome, two alignments with one barcode start either within
+   half the cutoff (one molecule; hence "within the cutoff" is transitive) or farther apart than
+   the cutoff (two clouds), and the alignments of one name lie in one cloud *)
+CloudsSeparated(W) ==
+    W.linked =>
+      \A i \in DOMAIN W.aln, k \in DOMAIN W.aln :
+         LET a == W.aln[i]
+             b == W.aln[k] IN
+         (i < k /\ a.bx # 0 /\ Placed(a) /\ Placed(b) /\ a.chrom = b.chrom) =>
+            /\ a.bx = b.bx => (2 * Abs(a.pos - b.pos) <= W.cutoff \/ Abs(a.pos - b.pos) > W.cutoff)
+            /\ a.name = b.name => (a.bx = b.bx /\ 2 * Abs(a.pos - b.pos) <= W.cutoff)
 
 (* indices of the alignments whose observed alleles count for alignment i *)
 Members(W, i) ==
